@@ -1,12 +1,12 @@
 #!/bin/bash
-# prep.sh <scratch-dir>: copy /repo's working tree to <scratch-dir>/repo and instrument it.
+# prep.sh <scratch-dir>: copy the working tree of /repo (or $VERIF_REPO) to <scratch-dir>/repo and instrument it.
 set -e
 export GOFLAGS=-mod=mod GOPROXY=off GOSUMDB=off GOTOOLCHAIN=local PATH=/opt/veriftools/go1.26.8/bin:$PATH
 S="$1"
 CFG="${2:-/verif/tools/seams.json}"
 rm -rf "$S/repo"
 mkdir -p "$S"
-rsync -a --exclude .git /repo/ "$S/repo/"
+rsync -a --exclude .git --exclude _out "${VERIF_REPO:-/repo}/" "$S/repo/"
 cd "$S/repo"
 for m in . estargz cmd; do (cd $m && go mod edit -require=verifsim@v0.0.0 -replace=verifsim=/verif/simrt); done
 /verif/bin/instrument -config "$CFG" -dir "$S/repo/estargz" -pkgs ./...
